@@ -153,13 +153,21 @@ Proof.
   split; [lia|split; [discriminate|]]. destruct (z_q_le _ _ Hq) as [H1 H2]. split; assumption.
 Qed.
 
-(* commit(true) is a data operation of the writer (SOA at the apex) before the publish *)
-Lemma bump_is_data s wr :
-  bump_soa s wr = s \/ exists x, bump_soa s wr = data_op s (w_new wr) (EUpdate [] 6 x).
+(* commit(true) stores at most one more last entry of version w at the apex *)
+Lemma bump_base c s wr :
+  c < w_new wr -> z_q c (w_new wr) s ->
+  z_cur (bump_soa s wr) = z_cur s /\ z_q c (w_new wr) (bump_soa s wr) /\
+  z_eqv (z_rollback s (w_new wr)) (z_rollback (bump_soa s wr) (w_new wr)).
 Proof.
-  unfold bump_soa. destruct (rs_get (z_apex s) 6 (z_cur s)) as [old|]; [|now left].
-  destruct (match rs_get (z_apex s) 6 (w_new wr) with None => true | Some new => new =? old end); [|now left].
-  right. exists (ver_next old). reflexivity.
+  intros Hc [Ha Hn]. unfold bump_soa.
+  assert (Hsame : z_cur s = z_cur s /\ z_q c (w_new wr) s /\ z_eqv (z_rollback s (w_new wr)) (z_rollback s (w_new wr)))
+    by (split; [reflexivity|split; [split; assumption|apply z_eqv_refl]]).
+  destruct (rs_get (z_apex s) 6 (z_cur s)) as [old|]; [|exact Hsame].
+  destruct (match rs_get (z_apex s) 6 (w_new wr) with None => true | Some new => new =? old end); [|exact Hsame].
+  split; [reflexivity|split].
+  - split; cbn [set_apex z_apex z_nodes]; [apply rs_at_q; auto using wl_update|exact Hn].
+  - rewrite !z_rollback_eq. split; cbn [set_apex z_apex z_nodes]; [|apply ns_le_refl].
+    apply rs_eqv_sym. apply (rs_at_base c); auto using wl_update.
 Qed.
 
 Lemma step_inv s e :
@@ -238,10 +246,9 @@ Proof.
       assert (E : step s ECommitBump = publish (bump_soa s wr) wr) by (cbn [step]; now rewrite Hw). rewrite E.
       assert (Hb : z_cur (bump_soa s wr) = z_cur s /\ z_q (z_cur s) (z_cur s + 1) (bump_soa s wr) /\
                    forall r, r <= z_cur s -> view_eq (bump_soa s wr) s r).
-      { destruct (bump_is_data s wr) as [->|[x ->]]; [split; [reflexivity|split; [exact Hq0|intros; apply view_eq_refl]]|].
-        rewrite Hnew. destruct (data_op_base (z_cur s) (z_cur s + 1) s (EUpdate [] 6 x) ltac:(lia) Hq0) as [Hq' Heqv].
-        split; [reflexivity|split; [exact Hq'|]]. intros r Hr.
-        apply (view_eq_trans _ (z_rollback (data_op s (z_cur s + 1) (EUpdate [] 6 x)) (z_cur s + 1))).
+      { destruct (bump_base (z_cur s) s wr ltac:(lia) ltac:(rewrite Hnew; exact Hq0)) as [Hc0 [Hq' Heqv]]. rewrite Hnew in *.
+        split; [exact Hc0|split; [exact Hq'|]]. intros r Hr.
+        apply (view_eq_trans _ (z_rollback (bump_soa s wr) (z_cur s + 1))).
         - apply view_eq_sym. apply view_of_base. apply below_open; unfold LIM; lia.
         - apply (view_eq_trans _ (z_rollback s (z_cur s + 1))).
           + apply view_eq_sym. now apply view_of_eqv.
@@ -639,7 +646,11 @@ Example ex_commit_bump :
   query (run s1 [ECommitBump]) 1 [3] 1 = ANx (Some 2) /\
   query (run s1 [EUpdate [] 6 7; ECommitBump]) 1 [] 6 = AData 7 /\
   query (run s1 [ERemove [] 6; ECommitBump]) 1 [] 6 = AData 2 /\
-  query (run s1 [ECommit]) 1 [] 6 = AData 1.
+  query (run s1 [ECommit]) 1 [] 6 = AData 1 /\
+  (* the serial wraps like Serial::add: 2^32 - 1 is followed by 0, which is a SOA, not an absence *)
+  query (run (build [IRrset [] 6 4294967295]) [EWAcquire; ECommitBump]) 1 [] 6 = AData 0 /\
+  query (run (build [IRrset [] 6 4294967295]) [EWAcquire; ECommitBump; ECommitBump]) 2 [] 6 = AData 1 /\
+  query (run (build [IRrset [] 6 4294967295]) [EWAcquire; ECommitBump]) 1 [3] 1 = ANx (Some 0).
 Proof. repeat split; reflexivity. Qed.
 
 (* ---------------------------------------------------------------- write handle used after its session *)
@@ -683,3 +694,76 @@ Example ex_stale_rejected_or_effective :
   trace (run wit_zone [EWAcquire; EWOpen; ECommit]) [] [EStale (EUpdate [2] 1 22)]
   = [if stale_handle_rejected then OStaleRejected else OStaleDone].
 Proof. reflexivity. Qed.
+
+(* ---------------------------------------------------------------- the property in terms of the trace runner *)
+
+(* readers map after a list of events *)
+Fixpoint rd_after (s : zstate) (rd : list (N * N)) (evs : list event) : list (N * N) :=
+  match evs with
+  | [] => rd
+  | e :: tl =>
+      match e with
+      | EAcquire r => rd_after s ((r, z_cur s) :: rd) tl
+      | ERelease r => rd_after s (filter (fun p => negb (fst p =? r)) rd) tl
+      | EQuery _ _ _ | EWalk _ => rd_after s rd tl
+      | _ => rd_after (step s e) rd tl
+      end
+  end.
+
+Lemma trace_app : forall a s rd b,
+  trace s rd (a ++ b) = trace s rd a ++ trace (run s a) (rd_after s rd a) b.
+Proof.
+  induction a as [|e tl IH]; intros s rd b; [reflexivity|].
+  assert (Hst : forall r, step s (EAcquire r) = s) by reflexivity.
+  destruct e; cbn [app trace rd_after run fold_left]; cbv [reader_pins_current];
+    try (rewrite IH; reflexivity); try (cbn [app]; f_equal; rewrite IH; reflexivity).
+Qed.
+
+Definition touches_reader (r : N) (e : event) : bool :=
+  match e with EAcquire r' | ERelease r' => r' =? r | _ => false end.
+
+Lemma al_get_filter_other r r' (rd : list (N * N)) :
+  (r' =? r) = false -> al_get r (filter (fun p => negb (fst p =? r')) rd) = al_get r rd.
+Proof.
+  intros Hne. induction rd as [|[k v] tl IH]; [reflexivity|]. cbn [filter fst al_get].
+  destruct (N.eqb_spec k r') as [->|Hk]; cbn [negb].
+  - rewrite Hne. exact IH.
+  - cbn [al_get]. destruct (k =? r); [reflexivity|exact IH].
+Qed.
+
+Lemma rd_after_other r : forall evs s rd,
+  forallb (fun e => negb (touches_reader r e)) evs = true -> al_get r (rd_after s rd evs) = al_get r rd.
+Proof.
+  induction evs as [|e tl IH]; intros s rd H; [reflexivity|]. cbn [forallb] in H. apply andb_prop in H. destruct H as [He Htl].
+  apply negb_true_iff in He.
+  destruct e; cbn [rd_after touches_reader] in *; try (now apply IH).
+  - rewrite IH by exact Htl. cbn [al_get]. now rewrite He.
+  - rewrite IH by exact Htl. now apply al_get_filter_other.
+Qed.
+
+(* THE property, in terms of what the API returns: a reader acquired now and
+   queried (or asked to walk) after ANY further API calls -- by other readers and by
+   writers opening, updating, removing, committing (also several versions),
+   aborting -- gets the answer of the zone as it was when it was acquired *)
+Theorem reader_sees_acquire_time : forall s rd r evs name t,
+  zinv s -> z_cur s + ncommits evs + 2 < LIM -> stale_free evs ->
+  forallb (fun e => negb (touches_reader r e)) evs = true ->
+  exists before,
+    trace s rd (EAcquire r :: evs ++ [EQuery r name t; EWalk r]) =
+    before ++ [OAnswer (query s (z_cur s) name t); OWalk (walk s (z_cur s))].
+Proof.
+  intros s rd r evs name t Hinv Hlim Hsf Hr.
+  cbn [trace]. cbv [reader_pins_current]. rewrite trace_app.
+  exists (trace s ((r, z_cur s) :: rd) evs). f_equal.
+  cbn [trace]. rewrite (rd_after_other r evs s _ Hr). cbn [al_get]. rewrite N.eqb_refl.
+  destruct (snapshot_isolation evs s (z_cur s) Hinv ltac:(lia) Hlim Hsf) as [H1 H2].
+  now rewrite H1, H2.
+Qed.
+
+Example ex_more_flags :
+  (* a node that only has a CNAME exists; one that has nothing does not *)
+  query (build [IRrset [] 6 1; ICname [2] 7]) 0 [2] 1 = ACname 7 /\
+  query (run (build [IRrset [] 6 1; ICname [2] 7]) [EWAcquire; EWOpen; ERegular [2]; ECommit]) 1 [2] 1 = ANx (Some 1) /\
+  (* an update with the empty RRset removes *)
+  query (run wit_zone [EWAcquire; EWOpen; EUpdate [2] 1 0; ECommit]) 1 [2] 1 = ANx (Some 1).
+Proof. repeat split; reflexivity. Qed.
